@@ -80,11 +80,20 @@ theorem C06_no_border (k : Nat) (hk : 0 < k) (hk4 : k < 4) (x : Bytes) :
     injection hc with h1 _
     exact absurd h1 (by decide)
 
-/-- a stream of well-formed messages with 'D'-free junk between them is recovered completely
-    and in order by repeated parsing in storage mode (`parseAll` of Props/C04.lean: the
-    client loop, defined by recursion on what is left) -/
+/-- the hypothesis of `C06_junk` / `C06_junk_any` says exactly that the junk does not contain
+    the pattern (the pattern has no border, so an occurrence cannot straddle from the junk into
+    the real pattern) -/
+theorem C06_junk_hyp_iff (j : Bytes) :
+    (∀ k, k < j.length → ((j ++ DLT_PATTERN).drop k).take 4 ≠ DLT_PATTERN)
+      ↔ (∀ k, (j.drop k).take 4 ≠ DLT_PATTERN) :=
+  ⟨window_notContains j, notContains_window j⟩
+
+/-- a stream of well-formed messages with junk between them that does not contain the pattern
+    is recovered completely and in order by repeated parsing in storage mode (`parseAll` of
+    Props/C04.lean: the client loop, defined by recursion on what is left) -/
 theorem C06_stream (items : List (Bytes × Message))
-    (h : ∀ x ∈ items, (∀ b ∈ x.1, b ≠ 0x44#8) ∧ x.2.wf = true ∧ x.2.storageHeader.isSome = true) :
+    (h : ∀ x ∈ items, (∀ k, (x.1.drop k).take 4 ≠ DLT_PATTERN) ∧ x.2.wf = true
+      ∧ x.2.storageHeader.isSome = true) :
     parseAll none true (items.map fun x => x.1 ++ x.2.asBytes).flatten
       = items.map (fun x => ParsedMessage.item x.2) := by
   induction items with
@@ -97,7 +106,7 @@ theorem C06_stream (items : List (Bytes × Message))
     · rfl
   | cons x t ih =>
     obtain ⟨hj, hwf, hs⟩ := h x List.mem_cons_self
-    have hstep := dltMessage_noD_junk_step x.1 hj x.2 hwf hs
+    have hstep := C06_junk x.1 (notContains_window x.1 hj) x.2 hwf hs
       (t.map fun x => x.1 ++ x.2.asBytes).flatten
     rw [List.map_cons, List.flatten_cons, List.append_assoc, parseAll]
     split
